@@ -64,9 +64,9 @@ func genC14(seed uint64, run int, tier string) Scenario {
 	// the 8 strict x known-hosts cells (+ a look-alike host entry, + a path that is there when the
 	// transport is built but cannot be read when it opens: a directory, or removed meanwhile) are
 	// visited in turn
-	sc.Cell = run % 14
+	sc.Cell = run % 16
 	sc.Strict = sc.Cell%2 == 0
-	sc.KnownHosts = []string{"has", "other", "empty", "none", "other-host", "dir", "removed"}[sc.Cell/2]
+	sc.KnownHosts = []string{"has", "other", "empty", "none", "other-host", "dir", "removed", "bare-host"}[sc.Cell/2]
 	sc.Auth = pick(r, "password", "key", "both")
 	sc.Host = pick(r, "router1.example.net", "10.1.2.3", "sw-"+word(r, lower+digits, 1, 8))
 	sc.Port = pick(r, 22, 2222, 830, between(r, 1024, 65535))
@@ -85,10 +85,17 @@ func genC14(seed uint64, run int, tier string) Scenario {
 	return sc
 }
 
+// hostKeyListed: the known-hosts file holds the presented key for this host and port. "bare-host"
+// lists it under the plain host name, which stands for port 22 only (a connection to another port
+// is looked up as [host]:port, and that line holds another key).
+func (sc *C14) hostKeyListed() bool {
+	return sc.KnownHosts == "has" || sc.KnownHosts == "bare-host" && sc.Port == 22
+}
+
 // wantOpen is the reference: strict checking passes iff a known-hosts file is given and holds
 // the presented key for this host; then at least one configured credential must be accepted.
 func (sc *C14) wantOpen() bool {
-	if sc.Strict && sc.KnownHosts != "has" {
+	if sc.Strict && !sc.hostKeyListed() {
 		return false
 	}
 	pwOK := (sc.Auth == "password" || sc.Auth == "both") && sc.SrvPass && !sc.WrongPass
@@ -125,6 +132,12 @@ func runC14(env *Env, s Scenario) {
 			_ = os.WriteFile(khPath, []byte(knownhosts.Line([]string{knownhosts.Normalize("elsewhere.example.org:22")}, hostKey.PublicKey())+"\n"), 0o600)
 		case "empty":
 			_ = os.WriteFile(khPath, nil, 0o600)
+		case "bare-host":
+			lines := knownhosts.Line([]string{sc.Host}, hostKey.PublicKey()) + "\n"
+			if sc.Port != 22 {
+				lines += knownhosts.Line([]string{knownhosts.Normalize(addr)}, otherKey.PublicKey()) + "\n"
+			}
+			_ = os.WriteFile(khPath, []byte(lines), 0o600)
 		case "dir":
 			_ = os.Mkdir(khPath, 0o700)
 		case "removed":
@@ -324,7 +337,7 @@ func runC14(env *Env, s Scenario) {
 		clause := "connected-despite-host-key-policy"
 		if want {
 			clause = "open-failed-unexpectedly"
-		} else if !(sc.Strict && sc.KnownHosts != "has") {
+		} else if !(sc.Strict && !sc.hostKeyListed()) {
 			clause = "connected-without-valid-credentials"
 		}
 		env.Fail(clause, "", "Open returned %v; strict=%v known-hosts=%s auth=%s => expected success=%v", openErr, sc.Strict, sc.KnownHosts, sc.Auth, want)
@@ -333,16 +346,16 @@ func runC14(env *Env, s Scenario) {
 		env.Probe("open-retried-on-the-same-transport")
 		if retryErr == nil && !want {
 			clause := "connected-despite-host-key-policy"
-			if !(sc.Strict && sc.KnownHosts != "has") {
+			if !(sc.Strict && !sc.hostKeyListed()) {
 				clause = "connected-without-valid-credentials"
 			}
 			env.Fail(clause, "retry", "the first Open was refused (%v) but a second Open on the same transport connected; strict=%v known-hosts=%s", openErr, sc.Strict, sc.KnownHosts)
 		}
-		if _, pw2, _, _, _, _ := srv2.Snapshot(); sc.Strict && sc.KnownHosts != "has" && len(pw2) > 0 {
+		if _, pw2, _, _, _, _ := srv2.Snapshot(); sc.Strict && !sc.hostKeyListed() && len(pw2) > 0 {
 			env.Fail("password-offered-to-unverified-host", "retry", "the retry offered the password although the host key could not be verified")
 		}
 	}
-	if sc.Strict && sc.KnownHosts != "has" {
+	if sc.Strict && !sc.hostKeyListed() {
 		// the connection must have been refused before any credential was offered
 		if len(passwords) > 0 {
 			env.Fail("password-offered-to-unverified-host", "", "the password was offered although the host key could not be verified")
@@ -419,7 +432,7 @@ func init() {
 			QuickRuns:   400,
 			ThoroughS:   240,
 			Legs: []Leg{
-				{Name: "D", QuickRuns: 400, Share: 0.7},
+				{Name: "D", QuickRuns: 960, Share: 0.7},
 				{Name: "OS", Prop: "C14S", QuickRuns: 32, Share: 0.3, Workers: 4},
 			},
 		},
